@@ -89,6 +89,7 @@ type harness struct {
 	calls        map[string]int
 	sigs         map[string]int
 	nSample      int
+	saves        int
 	keepDefaults bool // sequences(): let one Load see what the previous one left behind
 	clean        []string
 	fileOK       map[string]bool // option -> set from the file with a non-default value
@@ -915,7 +916,14 @@ func (h *harness) fromViper(c *Case, want Vals) {
 
 // saveLoad writes the configuration holding vals with SaveAsYaml and loads it back without flags.
 func (h *harness) saveLoad(c *Case, vals Vals) (outcome, bool) {
-	_ = os.Remove(h.cfgPath)
+	// two saves of three start without a file; the third writes over whatever the previous case left there (a longer or
+	// a shorter document, or one that does not parse): saving must replace the file, not patch it
+	h.saves++
+	if h.saves%3 != 0 {
+		_ = os.Remove(h.cfgPath)
+	} else if _, err := os.Stat(h.cfgPath); err == nil {
+		h.r.Count("saves_over_an_existing_file", 1)
+	}
 	cfg := h.d.build(vals, h.home)
 	var err error
 	var pan string
